@@ -1339,7 +1339,7 @@ def plan(tier):
     if tier == 'quick':
         return [{'n': 14, 'max_entries': 10} for i in range(16)]
     g = grid()
-    return [{'n': 1500, 'max_entries': 14, 'grid': [j for j in range(len(g)) if j % 16 == i]} for i in range(16)]
+    return [{'n': 500, 'max_entries': 14, 'grid': [j for j in range(len(g)) if j % 16 == i]} for i in range(16)]
 
 
 def run_shard(ctx, spec):
@@ -1368,7 +1368,7 @@ def health(agg, tier):
     lab = agg['labels']
     n = max(1, lab.get('typelibs', 0))
     probs = []
-    if n < (200 if tier == 'quick' else 25000):
+    if n < (200 if tier == 'quick' else 8000):
         probs.append('only %d typelibs checked' % n)
     for name, frac in _GATES:
         if lab.get(name, 0) < frac * n:
